@@ -1,8 +1,7 @@
 (* C01 - totality of the mirror encoders: on a well-formed request whose line fits the update buffer
    send_rect answers Ok (neither the model's own failure value Err nor "client closed") for Raw, encoding -1,
-   RRE, CoRRE, Hextile, Zlib and Ultra.  For ZRLE and Tight (zrle_tile, tight_subrect) totality is NOT proved;
-   the driver prints "upd model-error" for Err/None, which the exact comparison with the implementation's
-   stream reports.  The fuel of tight_split is proved adequate in TightSplitTotal.v. *)
+   RRE, CoRRE, Hextile, Zlib and Ultra.  ZRLE: ZRLETotal.v, Tight: TightTotal.v (fuel of tight_split:
+   TightSplitTotal.v), all encodings of send_rect together: SendAll.v. *)
 From Coq Require Import ZArith List Lia Bool Arith.
 From LV Require Import Enc.EncBase Enc.EncBaseProofs Enc.Subrect Enc.SubrectProofs Enc.Raw Enc.RRE Enc.Hextile
   Enc.RawRREProofs Enc.HextileProofs Enc.Zlib Enc.SplitProofs Enc.ZRLE Enc.Update Enc.UpdateProofs Gen.Consts_C01.
